@@ -46,6 +46,7 @@ func genC11(r *simrt.Rand, tier string) (Cfg, *Program) {
 	pf.ErrPct, pf.PanicPct = 10, 10
 	pf.AdFaults = r.Chance(50)
 	pf.ErrReaderPct = 30
+	pf.CloseInFnPct = 8
 	return generate(r, pf)
 }
 
